@@ -10,7 +10,7 @@
    entry of the tick task (the harness calls receive_tick directly with a controlled clock),
    slaves of slaves (create_slave is only applied to the root). *)
 From Coq Require Import List NArith Bool.
-From LTV.C12 Require Import ParamsGen.
+From LTV.C12 Require Import ParamsGen PolicyGen.
 Import ListNotations.
 Local Open Scope N_scope.
 
@@ -57,8 +57,8 @@ Definition rate_discard (r : rate) (now_s : N) : rate :=
   let '(rq, c) := drop_old (rev (r_q r)) (now_s - r_span r) (r_cur r) in
   {| r_q := rev rq; r_cur := c; r_span := r_span r |}.
 
-Definition rate_limit_cur : N := 2 ^ Params.rate_limit_cur_shift.  (* 1 << 40 *)
-Definition rate_limit_bytes : N := 2 ^ Params.rate_limit_bytes_shift.    (* 1 << 28 *)
+Definition rate_limit_cur : N := 2 ^ Policy.rate_cur_shift.  (* 1 << 40 *)
+Definition rate_limit_bytes : N := 2 ^ Policy.rate_bytes_shift.    (* 1 << 28 *)
 
 Definition rate_insert (r : rate) (now_s bytes : N) : res rate :=
   let r1 := rate_discard r now_s in
@@ -85,7 +85,7 @@ Record tl : Type := {
 
 Definition tl_init : tl :=
   {| enabled := false; size := 0; outst := 0; unalloc := 0; uu := 0; radded := 0;
-     minc := Params.throttle_list_min_chunk_init; maxc := Params.throttle_list_max_chunk_init; rslow := {| r_q := []; r_cur := 0; r_span := 60 |};
+     minc := Policy.list_min_init; maxc := Policy.list_max_init; rslow := {| r_q := []; r_cur := 0; r_span := 60 |};
      act := []; inact := [] |}.
 
 Fixpoint lookup (id : N) (l : list (N * N)) : option N :=
@@ -245,16 +245,31 @@ Definition set_chunks (t : tl) (mn mx : N) : tl :=
      radded := radded t; minc := mn; maxc := mx; rslow := rslow t; act := act t; inact := inact t |}.
 
 (* ------------------------------------------------------------------ Throttle::calculate_* *)
-(* chunk-size table (limit, min chunk) re-extracted from throttle.cc: Params.throttle_chunk_table,
-   Params.throttle_chunk_default, Params.throttle_max_chunk_factor *)
+(* Chunk-size policy. The property does not fix min/max chunk sizes, so the model runs with the policy
+   PROBED from the compiled code (coq/C12/PolicyGen.v, written by props/c12.py from `c12 --params`):
+   Policy.chunk_probe maps every rate the cases use to (min chunk, max chunk). For a rate that was not
+   probed the table re-extracted from throttle.cc by regex (ParamsGen, optional cross-check) is used,
+   clamped into the side conditions the proofs need (0 < min <= max <= 65536). *)
 Fixpoint chunk_lookup (tab : list (N * N)) (dflt rate : N) : N :=
   match tab with
   | [] => dflt
   | (lim, v) :: r => if rate <=? lim then v else chunk_lookup r dflt rate
   end.
+Fixpoint assoc_rate (rate : N) (tab : list (N * (N * N))) : option (N * N) :=
+  match tab with
+  | [] => None
+  | (r, p) :: rest => if r =? rate then Some p else assoc_rate rate rest
+  end.
+Definition fb_min_chunk (rate : N) : N :=
+  let v := chunk_lookup Params.throttle_chunk_table Params.throttle_chunk_default rate in
+  if (0 <? v) && (v <=? 16384) then v else 512.
+Definition fb_max_chunk (rate : N) : N :=
+  let m := (fb_min_chunk rate * Params.throttle_max_chunk_factor) mod w32 in
+  if (fb_min_chunk rate <=? m) && (m <=? 65536) then m else fb_min_chunk rate.
 Definition calc_min_chunk (rate : N) : N :=
-  chunk_lookup Params.throttle_chunk_table Params.throttle_chunk_default rate.
-Definition calc_max_chunk (rate : N) : N := (calc_min_chunk rate * Params.throttle_max_chunk_factor) mod w32.
+  match assoc_rate rate Policy.chunk_probe with Some p => fst p | None => fb_min_chunk rate end.
+Definition calc_max_chunk (rate : N) : N :=
+  match assoc_rate rate Policy.chunk_probe with Some p => snd p | None => fb_max_chunk rate end.
 
 Definition calc_interval (t : tl) (now_s : N) : N :=
   let r := rate_value (rslow t) now_s mod w32 in
@@ -278,7 +293,7 @@ Definition init : st :=
   {| now := t0; mrate := 0; unused := 0; next := 0; last_tick := t0; rtl := tl_init; slaves := [] |}.
 
 Definition secs (us : N) : N := us / 1000000.
-Definition fraction_base : N := 2 ^ Params.throttle_fraction_bits.
+Definition fraction_base : N := 2 ^ Policy.fraction_bits.
 
 (* commit 5638f7b: max rate 0 (unlimited) shares the parent's quota *)
 Definition need_of (quota fraction rate : N) : N :=
@@ -340,7 +355,7 @@ Definition tick_quota (count rate : N) : N := (((count * rate) mod w64) / 100000
 Definition tick_fraction (count : N) : N := (((count * fraction_base) mod w64) / 1000000) mod w32.
 
 Definition receive_tick (x : st) : res (st * list (nat * N)) :=
-  if now x <? last_tick x + Params.throttle_tick_min_interval_ms * 1000 then Err E_tick_short
+  if now x <? last_tick x + Policy.tick_min_us then Err E_tick_short
   else
     let count := now x - last_tick x in
     '(x', acts) <- receive_quota x (tick_quota count (mrate x)) (tick_fraction count) ;;
